@@ -111,6 +111,41 @@ void scale_case(vt::Rng& rng, int64_t icase)
         }
         columns.push_back(col);
     }
+    // a multi-label categorical input (never rescaled) and a structured continuous one (two lattice components, one missing pattern)
+    if (rng.coin(1, 3))
+    {
+        const auto classes = rng.range(2, 3);
+        auto       col     = vt::make_mclass_column("m0", classes, n);
+        for (int64_t i = 0; i < n; ++i)
+        {
+            for (int64_t k = 0; k < classes; ++k)
+            {
+                col.flat[static_cast<size_t>(i * classes + k)] = rng.coin() ? 1.0 : 0.0;
+            }
+            col.missing[static_cast<size_t>(i)] = static_cast<char>(rng.coin(1, 6));
+        }
+        columns.push_back(col);
+    }
+    if (rng.coin(1, 3))
+    {
+        auto col = vt::make_struct_column("s0", feature_type::float64, make_dims(2, 1, 1), n);
+        std::fill(col.missing.begin(), col.missing.end(), 1); // extra samples: missing
+        for (int64_t k = 0; k < 2; ++k)
+        {
+            auto    head  = vt::make_scalar_column("tmp", feature_type::float64, base);
+            int64_t given = 0;
+            fill_lattice(rng, head, base, given);
+            for (int64_t i = 0; i < base; ++i)
+            {
+                col.flat[static_cast<size_t>(2 * i + k)] = head.flat[static_cast<size_t>(i)];
+                if (k == 0)
+                {
+                    col.missing[static_cast<size_t>(i)] = head.missing[static_cast<size_t>(i)];
+                }
+            }
+        }
+        columns.push_back(col);
+    }
     {
         auto    col   = vt::make_scalar_column("y", feature_type::float64, n);
         int64_t given = 0;
@@ -134,7 +169,15 @@ void scale_case(vt::Rng& rng, int64_t icase)
     dataset.add<scalar_identity_generator_t>();
     dataset.add<struct_identity_generator_t>();
 
-    const auto samples = arange(0, n);
+    // all samples, sometimes listed in another order (the same columns: the statistics stay on the lattice)
+    auto samples = arange(0, n);
+    if (rng.coin(1, 3))
+    {
+        for (tensor_size_t i = n; i > 1; --i)
+        {
+            std::swap(samples(i - 1), samples(rng.range(0, i - 1)));
+        }
+    }
     const auto stats   = scalar_stats_t::make_flatten_stats(dataset, samples, rng.pick(std::vector<tensor_size_t>{1, 3, 1000}));
     tensor2d_t buffer;
     const auto raw = tensor2d_t{dataset.flatten(samples, buffer)};
@@ -292,27 +335,130 @@ void scale_case(vt::Rng& rng, int64_t icase)
 }
 
 // ---- float oracle (environment predicates): matrices of 1..300 rows x 1..20 continuous columns with magnitudes 1e-6..1e6, arbitrary
-// missing patterns, categorical columns in between, multi-output linear models; statistics recomputed in long double by the driver
+// missing patterns, categorical (single- and multi-label) and structured columns in between, multi-output linear models, continuous and
+// categorical targets, arbitrary sample lists (subsets, permutations, repetitions); statistics recomputed in long double by the driver
+struct ref_t
+{
+    int64_t     cnt{0};
+    long double lo{0}, hi{0}, mean{0}, sdev{0};
+
+    long double mag() const { return std::max<long double>({std::fabs(lo), std::fabs(hi), 1e-300L}); }
+};
+
+template <class tget>
+ref_t make_ref(const tensor_size_t rows, const tget& get)
+{
+    ref_t       r;
+    long double sum = 0;
+    for (tensor_size_t i = 0; i < rows; ++i)
+    {
+        const double v = get(i);
+        if (std::isfinite(v))
+        {
+            sum += v;
+            r.lo = r.cnt == 0 ? v : std::min<long double>(r.lo, v);
+            r.hi = r.cnt == 0 ? v : std::max<long double>(r.hi, v);
+            ++r.cnt;
+        }
+    }
+    r.mean = r.cnt > 0 ? sum / r.cnt : 0;
+    long double ss = 0;
+    for (tensor_size_t i = 0; i < rows; ++i)
+    {
+        const double v = get(i);
+        if (std::isfinite(v))
+        {
+            ss += (v - r.mean) * (v - r.mean);
+        }
+    }
+    r.sdev = r.cnt > 1 ? std::sqrt(ss / (r.cnt - 1)) : 0;
+    return r;
+}
+
+// the statistics of component c are those of the reference (up to rounding: how they are accumulated is the implementation's choice)
+bool stats_match(const scalar_stats_t& stats, const tensor_size_t c, const ref_t& r)
+{
+    if (stats.m_samples(c) != r.cnt)
+    {
+        return false;
+    }
+    if (r.cnt == 0)
+    {
+        return true;
+    }
+    const auto mag = r.mag();
+    auto       ok  = stats.m_min(c) == static_cast<double>(r.lo) && stats.m_max(c) == static_cast<double>(r.hi) && std::fabs(stats.m_mean(c) - r.mean) <= 1e-12L * mag;
+    if (r.cnt > 1)
+    {
+        ok = ok && std::fabs(stats.m_stdev(c) - r.sdev) <= 1e-6L * std::max(r.sdev, 1e-12L * mag) + 64 * 2.3e-16L * mag; // (+ the rounding of the values themselves)
+    }
+    return ok;
+}
+
+// advertised range / mean / deviation of the scaled finite values of a continuous column
+bool advertised_ok(const scaling_type mode, const std::vector<double>& scaled, const ref_t& r)
+{
+    const auto k = static_cast<int64_t>(scaled.size());
+    if (k < 2 || !(r.hi - r.lo >= 1e-7L))
+    {
+        // degenerate columns are left as they are (decided exactly on the lattice); the library treats a range or deviation below
+        // an ABSOLUTE epsilon (~1.5e-8) as degenerate, so columns of magnitude 1e-6 with a tiny spread are not required to
+        // reach the advertised range either
+        return true;
+    }
+    long double ssum = 0, ssq = 0, smin = scaled[0], smax = scaled[0];
+    for (const auto v : scaled)
+    {
+        ssum += v;
+        smin = std::min<long double>(smin, v);
+        smax = std::max<long double>(smax, v);
+    }
+    const auto smean = ssum / k;
+    for (const auto v : scaled)
+    {
+        ssq += (v - smean) * (v - smean);
+    }
+    const auto sdev1 = std::sqrt(ssq / (k - 1));
+    // tolerances: rounding of the statistics themselves is amplified by |value| / spread for near-constant columns
+    const auto big  = std::max<long double>(std::fabs(r.lo), std::fabs(r.hi));
+    const auto tolr = 1e-9L + 64 * 2.3e-16L * big / (r.hi - r.lo);
+    const auto tols = 1e-6L + 64 * 2.3e-16L * big / std::max<long double>(r.sdev, 1e-300L);
+    switch (mode)
+    {
+    case scaling_type::minmax: return std::fabs(smin) <= tolr && std::fabs(smax - 1) <= tolr;
+    case scaling_type::mean: return std::fabs(smean) <= tolr && smax - smin <= 1 + tolr;
+    case scaling_type::standard: return std::fabs(smean) <= tols && std::fabs(sdev1 - 1) <= tols;
+    default: return true;
+    }
+}
+
 void float_case(vt::Rng& rng, int64_t icase)
 {
     const auto n     = rng.coin(1, 6) ? rng.pick(std::vector<int64_t>{1, 2, 300}) : rng.range(1, 300);
     const auto ncont = rng.range(1, 20), ncat = rng.range(0, 3), tsize = rng.range(1, 5);
+    const auto nmcl  = rng.coin(1, 2) ? rng.range(1, 2) : int64_t{0}, nstr = rng.coin(1, 2) ? rng.range(1, 2) : int64_t{0};
     std::vector<vt::column_t> columns;
-    std::vector<int>          kind; // per flattened column: 0 continuous, 1 categorical (one-hot)
+    const auto fill_continuous = [&](vt::column_t& col)
+    {
+        const auto m   = (rng.coin() ? -1.0 : 1.0) * (rng.coin(1, 5) ? 0.0 : std::pow(10.0, rng.uniform(-6.0, 6.0)));
+        // spread: down to eight orders of magnitude below the mean (near-constant columns)
+        const auto s   = std::max(std::fabs(m) * 1e-8, std::pow(10.0, rng.uniform(-6.0, 6.0)));
+        const auto density = rng.pick(std::vector<int>{0, 0, 1, 3, 7});
+        for (int64_t i = 0; i < n; ++i)
+        {
+            for (int64_t k = 0; k < col.width; ++k)
+            {
+                col.flat[static_cast<size_t>(i * col.width + k)] = m + s * rng.uniform(-1.0, 1.0);
+            }
+            col.missing[static_cast<size_t>(i)] = static_cast<char>(rng.range(0, 9) < density);
+        }
+    };
     for (int64_t c = 0; c < ncont + ncat; ++c)
     {
         if (c < ncont)
         {
-            auto       col = vt::make_scalar_column("x" + std::to_string(c), feature_type::float64, n);
-            const auto m   = (rng.coin() ? -1.0 : 1.0) * (rng.coin(1, 5) ? 0.0 : std::pow(10.0, rng.uniform(-6.0, 6.0)));
-            // spread: down to eight orders of magnitude below the mean (near-constant columns)
-            const auto s   = std::max(std::fabs(m) * 1e-8, std::pow(10.0, rng.uniform(-6.0, 6.0)));
-            const auto density = rng.pick(std::vector<int>{0, 0, 1, 3, 7});
-            for (int64_t i = 0; i < n; ++i)
-            {
-                col.flat[static_cast<size_t>(i)]    = m + s * rng.uniform(-1.0, 1.0);
-                col.missing[static_cast<size_t>(i)] = static_cast<char>(rng.range(0, 9) < density);
-            }
+            auto col = vt::make_scalar_column("x" + std::to_string(c), feature_type::float64, n);
+            fill_continuous(col);
             columns.push_back(col);
         }
         else
@@ -326,25 +472,77 @@ void float_case(vt::Rng& rng, int64_t icase)
             columns.push_back(col);
         }
     }
+    // multi-label categorical inputs (never rescaled) and structured continuous ones (every component rescaled on its own)
+    for (int64_t c = 0; c < nmcl; ++c)
+    {
+        const auto classes = rng.range(2, 4);
+        auto       col     = vt::make_mclass_column("m" + std::to_string(c), classes, n);
+        for (int64_t i = 0; i < n; ++i)
+        {
+            for (int64_t k = 0; k < classes; ++k)
+            {
+                col.flat[static_cast<size_t>(i * classes + k)] = rng.coin() ? 1.0 : 0.0;
+            }
+            col.missing[static_cast<size_t>(i)] = static_cast<char>(rng.coin(1, 6));
+        }
+        columns.push_back(col);
+    }
+    for (int64_t c = 0; c < nstr; ++c)
+    {
+        const auto dims = rng.pick(std::vector<tensor3d_dims_t>{make_dims(2, 1, 1), make_dims(1, 3, 1), make_dims(2, 1, 2), make_dims(1, 1, 2)});
+        auto       col  = vt::make_struct_column("s" + std::to_string(c), feature_type::float64, dims, n);
+        fill_continuous(col);
+        if (rng.coin(1, 3))
+        {
+            // components of very different magnitudes
+            for (int64_t i = 0; i < n; ++i)
+            {
+                col.flat[static_cast<size_t>(i * col.width)] = 1e3 * rng.uniform(-1.0, 1.0);
+            }
+        }
+        columns.push_back(col);
+    }
     // interleave categorical and continuous columns
     for (size_t i = columns.size(); i > 1; --i)
     {
         std::swap(columns[i - 1], columns[static_cast<size_t>(rng.range(0, static_cast<int64_t>(i) - 1))]);
     }
+    // the target: continuous (scalar or structured) or categorical (single- or multi-label: never rescaled)
+    const auto target_kind = rng.coin(1, 4) ? (rng.coin() ? 1 : 2) : 0;
+    if (target_kind == 0)
     {
-        auto col = vt::make_struct_column("y", feature_type::float64, make_dims(tsize, 1, 1), n);
+        auto col = tsize == 1 ? vt::make_scalar_column("y", feature_type::float64, n) : vt::make_struct_column("y", feature_type::float64, make_dims(tsize, 1, 1), n);
         const auto m = (rng.coin() ? -1.0 : 1.0) * std::pow(10.0, rng.uniform(-3.0, 3.0));
+        // relative spread of every target component: of the order of the magnitude, sometimes near-constant or constant
+        std::vector<double> spread(static_cast<size_t>(tsize), 1.0);
+        for (auto& s : spread)
+        {
+            s = rng.coin(1, 5) ? (rng.coin(1, 4) ? 0.0 : std::pow(10.0, rng.uniform(-8.0, -1.0))) : 1.0;
+        }
+        for (int64_t i = 0; i < n; ++i)
+        {
+            for (int64_t k = 0; k < tsize; ++k)
+            {
+                col.flat[static_cast<size_t>(i * tsize + k)] = m * (1.0 + spread[static_cast<size_t>(k)] * rng.uniform(-1.0, 1.0));
+            }
+        }
+        columns.push_back(col);
+    }
+    else if (target_kind == 1)
+    {
+        auto col = vt::make_sclass_column("y", tsize + 1, n);
+        for (int64_t i = 0; i < n; ++i)
+        {
+            col.flat[static_cast<size_t>(i)] = static_cast<double>(rng.range(0, tsize));
+        }
+        columns.push_back(col);
+    }
+    else
+    {
+        auto col = vt::make_mclass_column("y", tsize + 1, n);
         for (auto& v : col.flat)
         {
-            v = m * (1.0 + rng.uniform(-1.0, 1.0));
-        }
-        if (tsize == 1)
-        {
-            col = vt::make_scalar_column("y", feature_type::float64, n);
-            for (auto& v : col.flat)
-            {
-                v = m * (1.0 + rng.uniform(-1.0, 1.0));
-            }
+            v = rng.coin() ? 1.0 : 0.0;
         }
         columns.push_back(col);
     }
@@ -352,50 +550,113 @@ void float_case(vt::Rng& rng, int64_t icase)
     source.load();
     dataset_t dataset(source, static_cast<size_t>(rng.range(1, 8)));
     dataset.add<sclass_identity_generator_t>();
+    dataset.add<mclass_identity_generator_t>();
     dataset.add<scalar_identity_generator_t>();
     dataset.add<struct_identity_generator_t>();
 
-    const auto samples = arange(0, n);
+    // the listed samples: all of them, a strict subset, a permutation, or a list with repeated indices - the statistics are those of the
+    // listed samples (with multiplicity)
+    indices_t samples = arange(0, n);
+    switch (rng.range(0, 5))
+    {
+    case 0:
+    case 1: break;
+    case 2: // a permutation
+        for (tensor_size_t i = n; i > 1; --i)
+        {
+            std::swap(samples(i - 1), samples(rng.range(0, i - 1)));
+        }
+        break;
+    case 3: // a strict subset (if there is one), in increasing or in random order
+        if (n > 1)
+        {
+            for (tensor_size_t i = n; i > 1; --i)
+            {
+                std::swap(samples(i - 1), samples(rng.range(0, i - 1)));
+            }
+            const auto size = rng.range(1, n - 1);
+            samples         = indices_t{samples.slice(0, size)};
+            if (rng.coin())
+            {
+                std::sort(samples.begin(), samples.end());
+            }
+        }
+        break;
+    default: // repeated indices
+    {
+        const auto size = rng.range(1, std::min<int64_t>(300, 2 * n));
+        samples.resize(size);
+        for (tensor_size_t i = 0; i < size; ++i)
+        {
+            samples(i) = rng.coin(1, 4) && i > 0 ? samples(i - 1) : rng.range(0, n - 1);
+        }
+        break;
+    }
+    }
+    const auto ns = samples.size();
+
     const auto stats   = scalar_stats_t::make_flatten_stats(dataset, samples, rng.pick(std::vector<tensor_size_t>{1, 3, 7, 64, 1000}));
     const auto tstats  = scalar_stats_t::make_targets_stats(dataset, samples, rng.pick(std::vector<tensor_size_t>{1, 5, 1000}));
     tensor2d_t buffer;
     const auto raw   = tensor2d_t{dataset.flatten(samples, buffer)};
     const auto isize = raw.size<1>();
+    tensor4d_t tbuffer;
+    const auto rawt  = tensor4d_t{dataset.targets(samples, tbuffer)};
+    const auto osize = rawt.size() / std::max<tensor_size_t>(ns, 1); // number of outputs
+    const auto rawt2 = rawt.reshape(ns, osize);
     // which flattened columns are categorical: the dataset says so through its column -> feature map
     std::vector<bool> categorical(static_cast<size_t>(isize), false);
+    // ... and the driver knows it from the names of its own columns; the continuous values are those of the driver's table at the listed samples
+    bool tableOK = true;
     for (tensor_size_t c = 0; c < isize; ++c)
     {
         const auto f = dataset.column2feature(c);
         categorical[static_cast<size_t>(c)] = dataset.feature(f).is_sclass() || dataset.feature(f).is_mclass();
+        const auto name = dataset.feature(f).name();
+        const auto it   = std::find_if(columns.begin(), columns.end(), [&](const auto& col) { return col.feature.name() == name; });
+        tableOK         = tableOK && it != columns.end() && !name.empty() && categorical[static_cast<size_t>(c)] == (name[0] == 'c' || name[0] == 'm');
+        if (it == columns.end() || categorical[static_cast<size_t>(c)])
+        {
+            continue;
+        }
+        tensor_size_t k = 0; // the component of the feature stored in this column
+        for (tensor_size_t cc = 0; cc < c; ++cc)
+        {
+            k += dataset.column2feature(cc) == f ? 1 : 0;
+        }
+        tableOK = tableOK && k < it->width;
+        for (tensor_size_t i = 0; i < ns && k < it->width; ++i)
+        {
+            const auto s = samples(i);
+            const auto v = raw(i, c);
+            tableOK      = tableOK && (it->missing[static_cast<size_t>(s)] != 0 ? std::isnan(v) : (v == it->at(s, k)));
+        }
+    }
+    tableOK = tableOK && (target_kind == 0 ? osize == tsize : osize == tsize + 1);
+    if (target_kind == 0)
+    {
+        for (tensor_size_t i = 0; i < ns; ++i)
+        {
+            for (tensor_size_t k = 0; k < osize; ++k)
+            {
+                tableOK = tableOK && rawt2(i, k) == columns.back().at(samples(i), k);
+            }
+        }
     }
     // the driver's own statistics
     bool statsOK = true;
+    std::vector<ref_t> refs;
     std::vector<long double> mean(static_cast<size_t>(isize), 0), sdev(static_cast<size_t>(isize), 0), lo(static_cast<size_t>(isize), 0), hi(static_cast<size_t>(isize), 0);
     std::vector<int64_t>     cnt(static_cast<size_t>(isize), 0);
     for (tensor_size_t c = 0; c < isize; ++c)
     {
         const auto u = static_cast<size_t>(c);
-        long double sum = 0;
-        for (tensor_size_t i = 0; i < n; ++i)
-        {
-            if (std::isfinite(raw(i, c)))
-            {
-                sum += raw(i, c);
-                lo[u] = cnt[u] == 0 ? raw(i, c) : std::min<long double>(lo[u], raw(i, c));
-                hi[u] = cnt[u] == 0 ? raw(i, c) : std::max<long double>(hi[u], raw(i, c));
-                ++cnt[u];
-            }
-        }
-        mean[u] = cnt[u] > 0 ? sum / cnt[u] : 0;
-        long double ss = 0;
-        for (tensor_size_t i = 0; i < n; ++i)
-        {
-            if (std::isfinite(raw(i, c)))
-            {
-                ss += (raw(i, c) - mean[u]) * (raw(i, c) - mean[u]);
-            }
-        }
-        sdev[u] = cnt[u] > 1 ? std::sqrt(ss / (cnt[u] - 1)) : 0;
+        refs.push_back(make_ref(ns, [&](const tensor_size_t i) { return raw(i, c); }));
+        cnt[u]  = refs[u].cnt;
+        lo[u]   = refs[u].lo;
+        hi[u]   = refs[u].hi;
+        mean[u] = refs[u].mean;
+        sdev[u] = refs[u].sdev;
         if (!categorical[u] && cnt[u] > 1)
         {
             const auto mag = std::max<long double>({std::fabs(lo[u]), std::fabs(hi[u]), 1e-300L});
@@ -407,9 +668,51 @@ void float_case(vt::Rng& rng, int64_t icase)
             statsOK = statsOK && stats.m_samples(c) == cnt[u] && stats.m_min(c) == static_cast<double>(lo[u]) && stats.m_max(c) == static_cast<double>(hi[u]) &&
                       std::fabs(stats.m_mean(c) - mean[u]) <= 1e-12L * mag && std::fabs(stats.m_stdev(c) - sdev[u]) <= 1e-6L * std::max(sdev[u], 1e-12L * mag) + 64 * 2.3e-16L * mag; // (+ the rounding of the values themselves)
         }
+        if (!categorical[u])
+        {
+            statsOK = statsOK && stats_match(stats, c, refs[u]); // (single-sample and all-missing columns as well)
+        }
+    }
+    // ... of the targets (continuous targets; categorical targets are never rescaled: checked below)
+    bool targetStatsOK = tstats.m_min.size() == osize;
+    std::vector<ref_t> trefs;
+    for (tensor_size_t k = 0; k < osize; ++k)
+    {
+        trefs.push_back(make_ref(ns, [&](const tensor_size_t i) { return rawt2(i, k); }));
+        if (target_kind == 0 && targetStatsOK)
+        {
+            targetStatsOK = stats_match(tstats, k, trefs.back());
+            if (!targetStatsOK && std::getenv("VERIF_DEBUG") != nullptr)
+            {
+                const auto& r = trefs.back();
+                std::fprintf(stderr, "target %d cnt=%lld/%lld min=%.17g/%.17Lg max=%.17g/%.17Lg mean=%.17g/%.17Lg sd=%.17g/%.17Lg\n", (int)k, (long long)tstats.m_samples(k), (long long)r.cnt,
+                             tstats.m_min(k), r.lo, tstats.m_max(k), r.hi, tstats.m_mean(k), r.mean, tstats.m_stdev(k), r.sdev);
+            }
+        }
+    }
+    // ... of every continuous feature on its own (scalar_stats_t::make_feature_stats): those of its flattened columns
+    bool featureStatsOK = true;
+    for (tensor_size_t f = 0; f < dataset.features(); ++f)
+    {
+        const auto feature = dataset.feature(f);
+        if (feature.is_sclass() || feature.is_mclass())
+        {
+            continue;
+        }
+        const auto fstats = scalar_stats_t::make_feature_stats(dataset, samples, f, rng.pick(std::vector<tensor_size_t>{1, 4, 50, 1000}));
+        tensor_size_t k   = 0;
+        for (tensor_size_t c = 0; c < isize; ++c)
+        {
+            if (dataset.column2feature(c) == f)
+            {
+                featureStatsOK = featureStatsOK && k < fstats.m_min.size() && stats_match(fstats, k, refs[static_cast<size_t>(c)]);
+                ++k;
+            }
+        }
+        featureStatsOK = featureStatsOK && k == fstats.m_min.size() && k == ::nano::size(feature.dims());
     }
     const auto modes = std::vector<scaling_type>{scaling_type::none, scaling_type::mean, scaling_type::minmax, scaling_type::standard};
-    bool roundtripOK = true, advertisedOK = true, categoricalOK = true, missingOK = true;
+    bool roundtripOK = true, advertisedOK = true, categoricalOK = true, missingOK = true, targetScalingOK = true;
     for (const auto mode : modes)
     {
         auto scaled = raw;
@@ -420,9 +723,8 @@ void float_case(vt::Rng& rng, int64_t icase)
         {
             const auto  u   = static_cast<size_t>(c);
             const auto  mag = static_cast<double>(std::max<long double>({std::fabs(lo[u]), std::fabs(hi[u]), 1e-300L}));
-            long double ssum = 0, ssq = 0, smin = 0, smax = 0;
-            int64_t     k = 0;
-            for (tensor_size_t i = 0; i < n; ++i)
+            std::vector<double> given;
+            for (tensor_size_t i = 0; i < ns; ++i)
             {
                 if (!std::isfinite(raw(i, c)))
                 {
@@ -435,46 +737,37 @@ void float_case(vt::Rng& rng, int64_t icase)
                     continue;
                 }
                 roundtripOK = roundtripOK && std::fabs(back(i, c) - raw(i, c)) <= 1e-9 * mag;
-                ssum += scaled(i, c);
-                smin = k == 0 ? scaled(i, c) : std::min<long double>(smin, scaled(i, c));
-                smax = k == 0 ? scaled(i, c) : std::max<long double>(smax, scaled(i, c));
-                ++k;
+                given.push_back(scaled(i, c));
             }
-            if (categorical[u] || k < 2 || !(hi[u] - lo[u] >= 1e-7L))
+            if (!categorical[u])
             {
-                // degenerate columns are left as they are (decided exactly on the lattice); the library treats a range or deviation below
-                // an ABSOLUTE epsilon (~1.5e-8) as degenerate, so columns of magnitude 1e-6 with a tiny spread are not required to
-                // reach the advertised range either
-                continue;
+                advertisedOK = advertisedOK && advertised_ok(mode, given, refs[u]);
             }
-            const auto smean = ssum / k;
-            for (tensor_size_t i = 0; i < n; ++i)
+        }
+        // the targets: continuous ones as the inputs, categorical ones untouched by every mode
+        auto tscaled = rawt;
+        tstats.scale(mode, tscaled.tensor());
+        auto tback = tscaled;
+        tstats.upscale(mode, tback.tensor());
+        const auto tscaled2 = tscaled.reshape(ns, osize);
+        const auto tback2   = tback.reshape(ns, osize);
+        for (tensor_size_t k = 0; k < osize; ++k)
+        {
+            const auto&         r = trefs[static_cast<size_t>(k)];
+            std::vector<double> given;
+            for (tensor_size_t i = 0; i < ns; ++i)
             {
-                if (std::isfinite(raw(i, c)))
+                if (target_kind != 0)
                 {
-                    ssq += (scaled(i, c) - smean) * (scaled(i, c) - smean);
+                    targetScalingOK = targetScalingOK && tscaled2(i, k) == rawt2(i, k) && tback2(i, k) == rawt2(i, k);
+                    continue;
                 }
+                targetScalingOK = targetScalingOK && std::fabs(tback2(i, k) - rawt2(i, k)) <= 1e-9 * static_cast<double>(r.mag());
+                given.push_back(tscaled2(i, k));
             }
-            const auto sdev1 = std::sqrt(ssq / (k - 1));
-            if (std::getenv("VERIF_DEBUG") != nullptr)
+            if (target_kind == 0)
             {
-                std::fprintf(stderr, "mode %d col %d k=%lld lo=%.17Lg hi=%.17Lg smin=%.17Lg smax=%.17Lg smean=%.17Lg sdev=%.17Lg\n", (int)mode, (int)c, (long long)k, lo[u], hi[u], smin, smax, smean, sdev1);
-            }
-            // tolerances: rounding of the statistics themselves is amplified by |value| / spread for near-constant columns
-            const auto big  = std::max<long double>(std::fabs(lo[u]), std::fabs(hi[u]));
-            const auto tolr = 1e-9L + 64 * 2.3e-16L * big / (hi[u] - lo[u]);
-            const auto tols = 1e-6L + 64 * 2.3e-16L * big / std::max<long double>(sdev[u], 1e-300L);
-            if (mode == scaling_type::minmax)
-            {
-                advertisedOK = advertisedOK && std::fabs(smin) <= tolr && std::fabs(smax - 1) <= tolr;
-            }
-            else if (mode == scaling_type::mean)
-            {
-                advertisedOK = advertisedOK && std::fabs(smean) <= tolr && smax - smin <= 1 + tolr;
-            }
-            else if (mode == scaling_type::standard)
-            {
-                advertisedOK = advertisedOK && std::fabs(smean) <= tols && std::fabs(sdev1 - 1) <= tols;
+                targetScalingOK = targetScalingOK && advertised_ok(mode, given, r);
             }
         }
     }
@@ -482,20 +775,20 @@ void float_case(vt::Rng& rng, int64_t icase)
     bool affineOK = true;
     {
         const auto min_ = rng.pick(modes), mout = rng.pick(modes);
-        tensor2d_t W(tsize, isize);
-        tensor1d_t b(tsize);
+        tensor2d_t W(osize, isize);
+        tensor1d_t b(osize);
         for (tensor_size_t i = 0; i < W.size(); ++i)
         {
             W(i) = rng.uniform(-3.0, 3.0);
         }
-        for (tensor_size_t i = 0; i < tsize; ++i)
+        for (tensor_size_t i = 0; i < osize; ++i)
         {
             b(i) = rng.uniform(-3.0, 3.0);
         }
         auto Wu = W;
         auto bu = b;
         ::nano::upscale(stats, min_, tstats, mout, Wu.tensor(), bu.tensor());
-        for (tensor_size_t i = 0; i < n; ++i)
+        for (tensor_size_t i = 0; i < ns; ++i)
         {
             bool finite = true;
             for (tensor_size_t c = 0; c < isize; ++c)
@@ -513,11 +806,11 @@ void float_case(vt::Rng& rng, int64_t icase)
             }
             auto xs = x;
             stats.scale(min_, xs.tensor());
-            tensor4d_t ys(make_dims(1, tsize, 1, 1)), yr(make_dims(1, tsize, 1, 1));
+            tensor4d_t ys(make_dims(1, osize, 1, 1)), yr(make_dims(1, osize, 1, 1));
             linear::predict(xs, W, b, ys.tensor());
             tstats.upscale(mout, ys.tensor());
             linear::predict(x, Wu, bu, yr.tensor());
-            for (tensor_size_t t = 0; t < tsize; ++t)
+            for (tensor_size_t t = 0; t < osize; ++t)
             {
                 double magnitude = std::fabs(bu(t)) + std::fabs(ys(t)) + 1e-300;
                 for (tensor_size_t c = 0; c < isize; ++c)
@@ -528,27 +821,67 @@ void float_case(vt::Rng& rng, int64_t icase)
             }
         }
     }
-    // what the iterators deliver: inputs and targets scaled independently of whether they are cached, of the batch size and of the kind
-    // of loop - the raw values scaled with the iterator's own statistics (same kernels: compared to 1e-12), missing inputs as zeros
-    bool iteratorOK = true;
+    // what the iterators deliver: inputs and targets scaled independently of whether they are cached (or too large for the given budget),
+    // of the batch size, of the kind of loop and of the scaling modes used before - the raw values scaled with the iterator's own
+    // statistics (same kernels: compared to 1e-12), missing inputs as zeros
+    bool iteratorOK = true, cacheOK = true;
     for (int variant = 0; variant < 2; ++variant)
     {
-        const auto mode = rng.pick(modes);
+        const auto mode = rng.pick(modes), other = rng.pick(modes);
         auto       it   = flatten_iterator_t{dataset, samples};
         it.batch(rng.pick(std::vector<tensor_size_t>{1, 2, 7, 64, 1000}));
-        it.scaling(mode);
-        if (rng.coin())
+        const auto all   = std::numeric_limits<tensor_size_t>::max();
+        const auto needx = static_cast<tensor_size_t>(sizeof(scalar_t)) * ns * isize, needt = static_cast<tensor_size_t>(sizeof(scalar_t)) * ns * osize;
+        const auto small = [&](const tensor_size_t need) { return rng.pick(std::vector<tensor_size_t>{0, 1, need / 2, need - 1}); };
+        switch (rng.range(0, 5))
         {
-            it.cache_flatten(std::numeric_limits<tensor_size_t>::max());
+        case 0: // maybe cached
+            it.scaling(mode);
+            if (rng.coin())
+            {
+                it.cache_flatten(all);
+            }
+            if (rng.coin())
+            {
+                it.cache_targets(all);
+            }
+            break;
+        case 1: // too large to be cached: nothing is cached
+            it.scaling(mode);
+            cacheOK = cacheOK && !it.cache_flatten(small(needx));
+            cacheOK = cacheOK && !it.cache_targets(small(needt));
+            break;
+        case 2: // cached with another scaling mode, then cached again with the one in use
+            it.scaling(other);
+            it.cache_flatten(all);
+            it.cache_targets(all);
+            it.scaling(mode);
+            it.cache_flatten(all);
+            it.cache_targets(all);
+            break;
+        case 3: // cached, the scaling mode changed and changed back
+            it.scaling(mode);
+            it.cache_flatten(all);
+            it.cache_targets(all);
+            it.scaling(other);
+            it.scaling(mode);
+            break;
+        case 4: // cached, then a budget that is too small
+            it.scaling(mode);
+            it.cache_flatten(all);
+            it.cache_targets(all);
+            cacheOK = cacheOK && !it.cache_flatten(small(needx));
+            cacheOK = cacheOK && !it.cache_targets(small(needt));
+            break;
+        default: // nothing cached, the scaling mode changed before the loops
+            it.scaling(other);
+            it.loop([&](tensor_range_t, size_t, tensor2d_cmap_t) {});
+            it.scaling(mode);
+            break;
         }
-        if (rng.coin())
-        {
-            it.cache_targets(std::numeric_limits<tensor_size_t>::max());
-        }
-        tensor4d_t tbuffer;
-        const auto rawt = tensor4d_t{dataset.targets(samples, tbuffer)};
-        auto       refx = raw;
-        auto       reft = rawt;
+        cacheOK   = cacheOK && it.scaling() == mode;
+        auto refx = raw;
+        auto reft = rawt;
         it.flatten_stats().scale(mode, refx.tensor());
         it.targets_stats().scale(mode, reft.tensor());
         tensor2d_t gotx(raw.dims()), gotx2(raw.dims());
@@ -580,10 +913,29 @@ void float_case(vt::Rng& rng, int64_t icase)
         {
             iteratorOK = iteratorOK && it.flatten_stats().m_samples(c) == stats.m_samples(c) &&
                          (stats.m_samples(c) == 0 || (it.flatten_stats().m_min(c) == stats.m_min(c) && it.flatten_stats().m_max(c) == stats.m_max(c)));
+            iteratorOK = iteratorOK && (categorical[static_cast<size_t>(c)] || stats_match(it.flatten_stats(), c, refs[static_cast<size_t>(c)]));
+        }
+        iteratorOK = iteratorOK && it.targets_stats().m_min.size() == osize;
+        for (tensor_size_t k = 0; k < osize && iteratorOK; ++k)
+        {
+            if (target_kind == 0)
+            {
+                iteratorOK = stats_match(it.targets_stats(), k, trefs[static_cast<size_t>(k)]);
+            }
+            else
+            {
+                // categorical targets are delivered as they are
+                for (tensor_size_t i = 0; i < ns; ++i)
+                {
+                    iteratorOK = iteratorOK && gott.reshape(ns, osize)(i, k) == rawt2(i, k) && gott2.reshape(ns, osize)(i, k) == rawt2(i, k);
+                }
+            }
         }
     }
-    vt::put(vt::J("Float").i("case", icase).i("rows", n).i("columns", isize).i("outputs", tsize).b("statsOK", statsOK).b("roundtripOK", roundtripOK).b(
-        "advertisedOK", advertisedOK).b("categoricalOK", categoricalOK).b("missingOK", missingOK).b("affineOK", affineOK).b("iteratorOK", iteratorOK));
+    vt::put(vt::J("Float").i("case", icase).i("rows", n).i("listed", ns).i("columns", isize).i("outputs", osize).i("targetKind", target_kind).b("statsOK", statsOK).b(
+        "roundtripOK", roundtripOK).b("advertisedOK", advertisedOK).b("categoricalOK", categoricalOK).b("missingOK", missingOK).b("affineOK", affineOK).b(
+        "iteratorOK", iteratorOK).b("tableOK", tableOK).b("targetStatsOK", targetStatsOK).b("targetScalingOK", targetScalingOK).b("featureStatsOK", featureStatsOK).b(
+        "cacheOK", cacheOK));
 }
 } // namespace
 
